@@ -199,7 +199,9 @@ C13_OnlySilentPeer ==
 
 \* C16, "Closed ... together with the non-nil error that ended it": a connection reported closed by a keep-alive time-out
 \* is one on which a ping really went unanswered -- not one whose PINGREQ could not be written, for instance (c16i)
-C16_ClosedCauseTruthful == C13_OnlySilentPeer
+\* (traces of the reconnecting client only: in the base-client scenarios of the conn family the DRIVER plays the keep-alive
+\* and stores ErrPingTimeout itself, step "kaerr")
+C16_ClosedCauseTruthful == Cfg.mode = "reconn" => C13_OnlySilentPeer
 
 Obs == [ C16_ClosedCauseTruthful |-> C16_ClosedCauseTruthful, C16_ActiveOnce |-> C16_ActiveOnce, C16_ActiveOnlyAfterAccept |-> C16_ActiveOnlyAfterAccept,
          C16_ClosedOnce |-> C16_ClosedOnce, C16_ClosedHasError |-> C16_ClosedHasError,
